@@ -42,11 +42,11 @@ func (g *Gate) Release() { g.once.Do(func() { close(g.release) }) }
 // Observer collects the hook points of ONE producer run (install, run, uninstall; runs are sequential
 // within a process).
 type Observer struct {
-	mu     sync.Mutex
-	evs    []Ev
-	gates  []*Gate
-	jitter *rand.Rand // nil: no jitter
-	jmu    sync.Mutex
+	mu      sync.Mutex
+	evs     []Ev
+	gates   []*Gate
+	jitter  *rand.Rand // nil: no jitter
+	jmu     sync.Mutex
 	maxHold time.Duration
 }
 
